@@ -9,7 +9,7 @@ RULE = ("random loop-free networks on rasters <= 56 cells (quick) / <= 400 (thor
         "random DEMs and arbitrary forests; outlet sets = pits, interior cells, nested outlets, duplicates, "
         "coordinates; ids random non-zero of dtype u8/u32/i64. non-trivial = >= 2 valid cells, >= 1 confluence, "
         "path length >= 3; distinct = SHA-1 of (op, network, outlets, ids)")
-ID_DTYPES = [np.uint8, np.uint32, np.int64]
+ID_DTYPES = [np.uint8, np.uint32, np.int64, np.uint64]
 
 
 def run(ctx):
@@ -33,6 +33,15 @@ def run(ctx):
         ctx.count("mode:" + mode)
         base = {"ds": ds, "shape": list(shape)}
         if mode == "default":
+            if rng.random() < 0.35:
+                # the full basin map with user ids for the pits, asked for before the default map on the same object
+                pits0 = canon_idx(flw.idxs_pit, n)
+                dt0 = rng.choice(ID_DTYPES)
+                ids0 = rng.sample(range(1, 250), len(pits0)) if len(pits0) < 249 else list(range(1, len(pits0) + 1))
+                out0 = flw.basins(ids=np.array(ids0, dtype=dt0))
+                ctx.count("pit-ids-before-default")
+                _add_basins(ctx, {"op": "basins", **base, "outlets": None, "ids": ids0, "dtype": np.dtype(dt0).name, "via": "pits"},
+                            ds, seq, pits0, ids0, out0, dt0, nontriv)
             out = flw.basins()
             outlets = canon_idx(flw.idxs_pit, n)
             ids = list(range(1, len(outlets) + 1))
@@ -56,9 +65,10 @@ def run(ctx):
                 # "every id vector without zeros": negative ids are legal for signed dtypes
                 pool = [(-x if rng.random() < 0.5 else x) for x in pool]
                 ctx.count("negative-ids")
-            if dt in (np.int64, np.uint32) and rng.random() < 0.2:
-                # ids beyond 2**24 (2**53 for int64): survive only if no float32 / float64 buffer is in the way
-                big = 2 ** 54 if dt == np.int64 else 2 ** 31
+            if dt in (np.int64, np.uint32, np.uint64) and rng.random() < (0.5 if dt == np.uint64 else 0.2):
+                # ids beyond 2**24 (2**53 for int64, 2**63 for uint64): survive only if no float32 / float64 buffer
+                # (or a signed 64-bit one) is in the way
+                big = 2 ** 54 if dt == np.int64 else (2 ** 31 if dt == np.uint32 else rng.choice([2 ** 54, 2 ** 63 + 2 ** 54]))
                 pool = [x + big * (1 if x > 0 else -1) + 2 * k + 1 for k, x in enumerate(pool)]
                 ctx.count("large-ids")
             ids_np = np.array(pool, dtype=dt)
